@@ -61,6 +61,11 @@ fn values<B: StarkField>(count: usize, rng: &mut Rng) -> Vec<B> {
 }
 
 pub fn build<B: StarkField>(a: &Asr, rng: &mut Rng) -> (Assertion<B>, Vec<B>) {
+    build_with(a, rng, false)
+}
+
+/// `constant`: a sequence assertion whose values are all the same (the same checkpoint value at every named step)
+pub fn build_with<B: StarkField>(a: &Asr, rng: &mut Rng, constant: bool) -> (Assertion<B>, Vec<B>) {
     match a.kind.as_str() {
         "single" => {
             let v = values::<B>(1, rng);
@@ -71,7 +76,7 @@ pub fn build<B: StarkField>(a: &Asr, rng: &mut Rng) -> (Assertion<B>, Vec<B>) {
             (Assertion::periodic(a.col, a.first, a.stride, v[0]), v)
         },
         "sequence" => {
-            let v = values::<B>(a.count, rng);
+            let v = if constant { vec![values::<B>(1, rng)[0]; a.count] } else { values::<B>(a.count, rng) };
             (Assertion::sequence(a.col, a.first, a.stride, v.clone()), v)
         },
         k => panic!("harness: unknown assertion kind {k}"),
@@ -110,6 +115,37 @@ fn check_assertion<B: StarkField>(fname: &str, c: &Case, all: &[Asr], rng: &mut 
     let key = |what: &str| format!("air/{fname}/{}/{what}", a.kind);
     let r = guarded(|| {
         let mut out: Vec<(String, String)> = vec![];
+        // a sequence whose values are all equal names the same steps as any other sequence: (1)-(3) run for both kinds of values
+        if a.kind == "sequence" && a.count >= 2 {
+            let (casr, cvals) = build_with::<B>(a, rng, true);
+            let mut named: Vec<usize> = vec![];
+            casr.apply(n, |s, _| named.push(s));
+            if named != c.steps || casr.get_num_steps(n) != c.steps.len() {
+                out.push(("constant-sequence-steps".into(), format!("a sequence of {} equal values names steps {:?}", a.count, &named[..named.len().min(8)])));
+            }
+            let z = divisor_zeros(&ConstraintDivisor::<B>::from_assertion(&casr, n), n);
+            if z != c.steps {
+                out.push(("constant-sequence-divisor".into(), format!("the divisor of a sequence of {} equal values vanishes on {:?}", a.count, &z[..z.len().min(8)])));
+            }
+            let ctx = context::<B>(n, 1);
+            let bc = BoundaryConstraints::<B>::new(&ctx, vec![casr.clone()], vec![], &[B::ONE]);
+            for g in bc.main_constraints() {
+                let z2 = divisor_zeros(g.divisor(), n);
+                if z2 != c.steps {
+                    out.push(("constant-sequence-group-divisor".into(), format!("group divisor of a sequence of equal values vanishes on {:?}", &z2[..z2.len().min(8)])));
+                }
+                let gen = B::get_root_of_unity(n.ilog2());
+                for con in g.constraints() {
+                    for &s in c.steps.iter() {
+                        let x = gen.exp((s as u64).into());
+                        if con.evaluate_at(x, cvals[0]) != B::ZERO || con.evaluate_at(x, cvals[0] + B::ONE) == B::ZERO {
+                            out.push(("constant-sequence-value".into(), format!("the constraint of a sequence of equal values does not bind the value at step {s}")));
+                            break;
+                        }
+                    }
+                }
+            }
+        }
         let (asr, vals) = build::<B>(a, rng);
         // (1) steps named through the public API
         let mut named: Vec<(usize, B)> = vec![];
